@@ -136,8 +136,15 @@ def mut_cases(draw, tier="quick"):
         muts.append((draw(st.integers(0, 10 ** 6)), draw(st.sampled_from(["zero", "one", "max", "max-1", "plus1", "minus1", "other", "half", "x256", "bit"])),
                      draw(st.integers(0, 63))))
     loop = draw(st.sampled_from([None, None, None, "self", "parent", "root", "sibling_dir_twice"]))
+    focus = draw(st.sampled_from([False, False, True]))
+    if focus:
+        # one field of a regular file's inode (size, block words, fragment location, start) changed, then the data of exactly that file is read
+        muts = [(draw(st.integers(0, 10 ** 6)), draw(st.sampled_from(["plus1", "minus1", "half", "bit", "bit", "one", "x256", "other", "zero", "max"])),
+                 draw(st.integers(0, 31)))]
+        loop = None
+        return dict(base=base, muts=muts, loop=None, focus=True, tool=draw(st.sampled_from(["cat", "cat", "cat", "unpack", "sqfs2tar", "diff"])), path=b"/")
     tool = draw(st.sampled_from(["list", "describe", "stat", "xattr", "cat", "unpack", "sqfs2tar", "sqfs2tar_nohl", "diff"]))
-    return dict(base=base, muts=muts, loop=loop, tool=tool, path=draw(st.sampled_from([b"/", b"/sub", b"/big", b"/sub/lnk", b"/f03", b"/sparse", b"/sub/hl", b"/empty"])))
+    return dict(base=base, muts=muts, loop=loop, tool=tool, path=draw(st.sampled_from([b"/", b"/sub", b"/big", b"/sub/lnk", b"/f03", b"/sparse", b"/sub/hl", b"/empty", b"/smallblk", b"/smallblk"])))
 
 
 def build_mutated(case):
@@ -163,8 +170,14 @@ def build_mutated(case):
     img = bytearray(img)
     fields = [f for f in lay if f[1] + f[2] <= len(img)]
     applied = []
+    # a quarter of the mutations aim at the fields that describe where and how long data is (block words, sizes, fragment locations)
+    hot = [f for f in fields if any(k in f[0] for k in ("blk", "size", "frag", "start"))] or fields
+    filef = [f for f in fields if ".file." in f[0] and not f[0].endswith((".nlink", ".xattr"))] or fields
     for sel, how, bit in case["muts"]:
-        name, off, w = fields[sel % len(fields)]
+        if case.get("focus"):
+            name, off, w = filef[sel % len(filef)]
+        else:
+            name, off, w = (hot[(sel // 4) % len(hot)] if sel % 4 == 0 else fields[sel % len(fields)])
         cur = int.from_bytes(img[off:off + w], "little")
         mx = (1 << (8 * w)) - 1
         if how == "zero":
@@ -193,9 +206,28 @@ def build_mutated(case):
     return bytes(img), applied
 
 
+_INO_PATH = {}
+
+
+def _path_of_inode(case, num):
+    """path of inode <num> in the unmutated base image"""
+    key = case["base"]
+    if key not in _INO_PATH:
+        clean, _ = build_mutated(dict(case, muts=[], focus=False))
+        im = sqfsimg.Image(clean)
+        _INO_PATH[key] = {i.number: b"/" + p for p, i in im.paths.items()}
+    return _INO_PATH[key].get(num)
+
+
 def check_mut_case(case, opts):
     img, applied = build_mutated(case)
     tool = case["tool"]
+    if case.get("focus") and applied:
+        import re
+        m = re.match(r"ino(\d+)\.", applied[0][0])
+        pth = _path_of_inode(case, int(m.group(1))) if m else None
+        if pth:
+            case = dict(case, path=pth)
     with Scratch("c05") as sc:
         p = os.path.join(sc, "m.sqfs")
         with open(p, "wb") as fh:
@@ -279,7 +311,7 @@ def main(tier, seed, scale=1.0):
         os.makedirs(empty)
         import multiprocessing as mp
         # structure-aware layer runs concurrently on 6 shards, the fuzzer on 10 cores (8 seeded + 2 from an empty corpus)
-        n = int((600 if tier == "quick" else 12000) * scale)
+        n = int((1800 if tier == "quick" else 30000) * scale)
         import threading
         hout = {}
         hth = threading.Thread(target=lambda: hout.setdefault("r", vcommon.run_shards("c05", "check_case", "strat", n, seed, tier, opts, 6)))
